@@ -21,6 +21,8 @@ def h_outputs(ctx, case):
         kw['drop_level'] = 'class'
     elif red == 3:
         kw['drop_level'] = 'subclass'
+        if case.get('shared_label'):
+            raise core.PathAbort('covered by the other inputs')
     elif red == 4:
         kw['drop_level'] = 'sub'        # not a level (prefix of one)
     iters = [1, 7][ctx.choice('iterations', 2)]
@@ -44,7 +46,9 @@ def h_outputs(ctx, case):
 
 HARNESSES = [
     Harness('outputs_agree', h_outputs, setup=SC.setup,
-            cases=[{'names': True}, {'names': False}],
+            cases=[{'names': True}, {'names': False},
+                   {'names': True, 'hmap': True},
+                   {'names': True, 'shared_label': True}],
             thorough_cases=[{'names': True, 'encodings': True},
                             {'names': False, 'encodings': True}],
             funcs=['from_specified_markers.run_mapping', '_run_mapping',
@@ -55,7 +59,8 @@ HARNESSES = [
             stubs=['multiprocessing -> model (workers run inline)'],
             bounds='one fixed 3-level taxonomy (4 leaves, single-child '
                    'parents, node and display names needing CSV quoting, '
-                   'name tables present or absent) and 5 query cells; '
+                   'name tables / readable level names present or absent, one '
+                   'label shared by two levels) and 5 query cells; '
                    'solver-enumerated configurations: no reduction / '
                    'flatten / drop of each non-leaf level / drop of an '
                    'unknown level, 1 or 7 bootstrap iterations, 0-2 '
